@@ -5,6 +5,7 @@ program; (2) online trace checker on hook H1 events: no pop on an empty stack, s
 function of the statement address within one activation, depths at procedure return equal those at
 its entry, executed branches stay inside their procedure."""
 import random
+import re
 
 from .. import corpus, driver
 from ..driver import ShardResult, h64
@@ -111,6 +112,30 @@ def header_fault_program(rng):
     return "\n".join(lines) + "\n", ["inner_" + inner_kind, "outer_" + outer_kind, "trap_" + trap, "in_sub" if in_sub else "in_main"]
 
 
+FAILABLE_LINE = re.compile(r"^\s*(PRINT\b|IF\b|ELSEIF\b|FOR\b|WHILE\b|DO (WHILE|UNTIL)\b|LOOP (WHILE|UNTIL)\b|SELECT CASE\b|CASE\b(?! ELSE)|[A-Za-z][A-Za-z0-9.]*[%&!#$]?(\(.*\))? = |[A-Za-z][A-Za-z0-9]* [^=]*$)", re.I)
+INT_TOKEN = re.compile(r"(?<![A-Za-z0-9.&#!%$\"])(\d{1,4})(?![A-Za-z0-9.#!%&])")
+
+
+def error_edges_program(rng, src):
+    """Any accepted generated program, with one to three whole-number literals inside expressions replaced by a quotient
+    that always fails (division by a SHARED variable that is zero), under ON ERROR RESUME NEXT: errors are raised in the
+    middle of argument lists, subscripts, PRINT items, CASE lists, block headers, in procedures at any call depth. Where
+    execution continues is not judged; the stacks are."""
+    lines = src.split("\n")
+    cands = []
+    for i, l in enumerate(lines):
+        if not FAILABLE_LINE.match(l) or '"' in l or re.match(r"^\s*(DIM|REDIM|CONST|DATA|DECLARE|SUB|FUNCTION|TYPE|END|DEF|ON|RESUME|RETURN|GOTO|GOSUB|EXIT|NEXT|READ)\b", l, re.I):
+            continue
+        for m in INT_TOKEN.finditer(l):
+            cands.append((i, m.start(1), m.end(1)))
+    if not cands:
+        return None
+    for i, a, b in sorted(rng.sample(cands, min(len(cands), rng.choice([1, 1, 2, 3]))), reverse=True):
+        l = lines[i]
+        lines[i] = l[:a] + "(" + l[a:b] + " / ZQ9%)" + l[b:]
+    return "DIM SHARED ZQ9%\nON ERROR RESUME NEXT\n" + "\n".join(lines)
+
+
 def shard(ctx):
     r = ShardResult()
     rng = ctx.rng
@@ -140,6 +165,13 @@ def shard(ctx):
             elif x < 0.50:
                 src, feats = header_fault_program(rng)
                 kind, stdin, uses_files, lpt1 = "header_faults", "", False, None
+            elif x < 0.60:
+                g = GenCalls(rng, max_depth=rng.choice([2, 3]), size=rng.choice([4, 7]))
+                base, _ = emit_with_procs(g.program())
+                src = error_edges_program(rng, base)
+                if src is None:
+                    continue
+                kind, stdin, uses_files, lpt1, feats = "error_edges", "", False, None, []
             else:
                 kind, src, stdin, uses_files, lpt1, feats = make_case(rng, texts, accepted)
         if "INKEY$" in src.upper():
